@@ -20,6 +20,8 @@ Proved here:
   unchanged, in both directions, for **every** type (`wfT`) and every value of it (`fitsT`), at any
   depth: records field by field through the by-name lookup, unions through the self-matching of
   detectUnionChanges, vectors and optionals element-wise.
+* `integer_conversion_checks_range` — between any two integer types exactly the values inside the
+  target's range convert (unchanged); all others are the documented runtime error; `every_integer_has_a_range`.
 * `record_fields_convert_by_name`, `added_fields_are_defaulted`, `removed_fields_are_dropped`,
   `integer_narrowing_overflows` — the documented behaviours on concrete shapes (kernel-evaluated).
 * `primitive pairs`: the classes come from C06 (`primitive_change_table`, regenerated from source).
@@ -48,6 +50,33 @@ example :
       (.cons 11 (.vector (.optional (.prim .string)) none) .nil))
     let v : Val := .record [.case 1 (.int 1), .list [.none, .some (.str [104])]]
     wfT t = true ∧ fitsT t v = true := by decide
+
+/-- every integer primitive has a range: the conversion below is never `unsupported` between integers -/
+theorem every_integer_has_a_range (p : Prim) (h : pkind p = .integer) : ∃ lo hi, p.range = some (lo, hi) ∧ lo ≤ 0 ∧ 0 < hi := by
+  cases p <;> simp [pkind] at h <;> exact ⟨_, _, rfl, by decide, by decide⟩
+
+/-- integer to integer: exactly the values inside the target's range are converted (unchanged); every other
+    value is the runtime error the documentation promises ("numeric overflow when converting between numbers"),
+    for every pair of integer types — widening, narrowing and same-width sign changes alike -/
+theorem integer_conversion_checks_range (src dst : Prim) (i lo hi : Int) (hs : pkind src = .integer)
+    (hd : pkind dst = .integer) (hne : src ≠ dst) (hr : dst.range = some (lo, hi)) :
+    convPrim src dst (.int i) = if lo ≤ i ∧ i ≤ hi then .ok (.int i) else .err "Numeric overflow" := by
+  unfold convPrim
+  simp only [hne, if_false, hs, hd, hr]
+  by_cases h : lo ≤ i ∧ i ≤ hi
+  · simp [h]
+  · simp only [h, if_false]
+    have : (decide (lo ≤ i) && decide (i ≤ hi)) = false := by
+      simp only [Bool.and_eq_false_iff, decide_eq_false_iff_not]
+      by_cases h1 : lo ≤ i
+      · exact Or.inr (fun h2 => h ⟨h1, h2⟩)
+      · exact Or.inl h1
+    simp [this]
+
+/-- in particular the upper half of an unsigned range has no signed counterpart of the same width -/
+example : convPrim .uint32 .int32 (.int 3000000000) = .err "Numeric overflow" ∧ convPrim .int32 .uint32 (.int (-1)) = .err "Numeric overflow" ∧
+    convPrim .uint32 .int32 (.int 2147483647) = .ok (.int 2147483647) := by
+  refine ⟨rfl, rfl, rfl⟩
 
 def recOld : ETy := .record 1 (.cons 10 (.prim .int32) (.cons 11 (.prim .string) (.cons 12 (.optional (.prim .int16)) .nil)))
 def recNew : ETy := .record 1 (.cons 11 (.prim .string) (.cons 13 (.vector (.prim .uint8) none) (.cons 10 (.prim .int64) .nil)))
